@@ -49,6 +49,7 @@ GROUPS["fontir"] = {
     "harness": {
         "fontir/src/feature_variations.rs": "harness/fontir/feature_variations.rs",
         "fontir/src/ir.rs": "harness/fontir/ir.rs",
+        "fontir/src/propagate_anchors.rs": "harness/fontir/propagate_anchors.rs",
     },
 }
 
@@ -220,6 +221,11 @@ H("c10_anchor_kind_len3", "C10", "fontir", "ir", mem_gb=12, funcs=[A], bound="ev
   oracle="independent classification: _NN component marker (0 rejected), __N rejected, _x mark(x), x_N ligature(x,N) (0 rejected), else base(name)")
 for _n in ["c10_group_of_mark_anchor", "c10_group_of_base_anchor", "c10_group_of_ligature_anchor"]:
     H(_n, "C10", "fontir", "ir", tier="thorough", funcs=[A], bound="group names g of 2 bytes over {a,b}x{a,b,1}", oracle="the anchor built from g carries group name g (so _g, g and g_N meet)")
+for _n, _d in [("c10_rename_entry", "'entry', both mirror signs symbolic"), ("c10_rename_exit", "'exit', both signs symbolic"), ("c10_rename_center", "'center', both signs symbolic"),
+               ("c10_rename_top_y", "'top', y sign symbolic, x not mirrored"), ("c10_rename_mark_bottom_y", "'_bottom', y sign symbolic"),
+               ("c10_rename_topleft_x", "'topleft', x sign symbolic, y not mirrored"), ("c10_rename_topleft_y", "'topleft', y sign symbolic")]:
+    H(_n, "C10", "fontir", "propagate_anchors", funcs=["fontir/src/propagate_anchors.rs::rename_anchor_for_scale"],
+      bound="anchor name " + _d + "; symbolic scale components any finite f64 with |v| < 1e6", oracle="mirrored in y: top<->bottom; in x: left<->right and entry<->exit; otherwise unchanged")
 H("c10_caret_and_cursive_names", "C10", "fontir", "ir", mem_gb=12, funcs=[A], bound="caret_/vcaret_ + one byte of {0,1,2,a}; entry; exit", oracle="caret/vcaret with index (default 1, 0 rejected); entry/exit cursive")
 
 O = "fontdrasil/src/orchestration.rs"
